@@ -27,11 +27,12 @@ def is_plumbing(name):
 # The oracle: facade `Trait::method` -> delegate method names accepted besides the same name.
 # Read off the code once (DESIGN R-FACADE) and frozen; a facade sent anywhere else is a violation.
 EXPLICIT = {
-    "Add::add": ["wrapping_add"], "AddAssign::add_assign": ["wrapping_add"],
-    "Sub::sub": ["wrapping_sub"], "SubAssign::sub_assign": ["wrapping_sub"],
-    "Mul::mul": ["wrapping_mul"], "MulAssign::mul_assign": ["wrapping_mul"],
-    "Div::div": ["wrapping_div"], "DivAssign::div_assign": ["wrapping_div"],
-    "Rem::rem": ["wrapping_rem"], "RemAssign::rem_assign": ["wrapping_rem"],
+    # (an operator may also be written through its own in-place form: `a op= b; a`)
+    "Add::add": ["wrapping_add", "add_assign"], "AddAssign::add_assign": ["wrapping_add"],
+    "Sub::sub": ["wrapping_sub", "sub_assign"], "SubAssign::sub_assign": ["wrapping_sub"],
+    "Mul::mul": ["wrapping_mul", "mul_assign"], "MulAssign::mul_assign": ["wrapping_mul"],
+    "Div::div": ["wrapping_div", "div_assign"], "DivAssign::div_assign": ["wrapping_div"],
+    "Rem::rem": ["wrapping_rem", "rem_assign"], "RemAssign::rem_assign": ["wrapping_rem"],
     "Neg::neg": ["wrapping_neg"],
     "Shl::shl": ["wrapping_shl"], "ShlAssign::shl_assign": ["shl"],
     "Shr::shr": ["wrapping_shr"], "ShrAssign::shr_assign": ["shr"],
@@ -86,7 +87,7 @@ BASE_IMPLS = {
     "Bits::into_inner", "Bits::as_uint", "Bits::as_uint_mut", "From::from", "Zeroize::zeroize@Uint",
     "PrimInt::from_le", "PrimInt::to_le", "Zero::is_zero", "Bits::as_limbs",
 }
-COMMUTATIVE = {"BitAnd::bitand", "BitOr::bitor", "BitXor::bitxor"}
+COMMUTATIVE = {"BitAnd::bitand", "BitOr::bitor", "BitXor::bitxor", "Add::add", "Mul::mul"}
 # the delegate's boolean result selects the returned constant (Index<usize> for Bits returns &true / &false)
 CONTROL_RESULT = {"Index::index"}
 FACADE_CFG = (65, 2)   # facades are analysed on the CFG pruned for a non-zero, non-aligned configuration
